@@ -29,12 +29,16 @@ type khLine struct {
 	Marker string   `json:"marker"`
 }
 type khCase struct {
-	File     []khLine `json:"file"`
-	NoFinalNl bool    `json:"no_final_nl"`
-	CRLF     bool     `json:"crlf"`
-	TrustAll bool     `json:"trust_all"`
-	Answers  string   `json:"answers"` // what the user types (lines)
-	Contacts []struct {
+	File      []khLine `json:"file"`
+	NoFinalNl bool     `json:"no_final_nl"`
+	CRLF      bool     `json:"crlf"`
+	TrustAll  bool     `json:"trust_all"`
+	Answers   string   `json:"answers"` // what the user types (lines)
+	// a reconnecting client: after the first round has been decided the same servers are contacted
+	// again through the same callback object; Answers2 is typed only then
+	Recontact bool   `json:"recontact"`
+	Answers2  string `json:"answers2"`
+	Contacts  []struct {
 		Server string `json:"server"` // "host:port" as dialled
 		Remote string `json:"remote"` // "ip:port"
 		Key    int    `json:"key"`
@@ -111,35 +115,59 @@ func init() {
 		defer cancel()
 		go cb.PromptAddHosts(ctx)
 		wrap := cb.Wrap()
-		results := make([]string, len(c.Contacts))
-		var wg sync.WaitGroup
-		for i, ct := range c.Contacts {
-			wg.Add(1)
-			go func(i int, server, remote string, key int) {
-				defer wg.Done()
-				host, port, _ := net.SplitHostPort(remote)
-				var p int
-				fmt.Sscan(port, &p)
-				addr := &net.TCPAddr{IP: net.ParseIP(host), Port: p}
-				done := make(chan error, 1)
-				go func() { done <- wrap(server, addr, khKey(key)) }()
-				select {
-				case err := <-done:
-					if err == nil {
-						results[i] = "proceed"
-					} else {
-						results[i] = "refused: " + err.Error()
-					}
-				case <-time.After(6 * time.Second):
-					results[i] = "blocked"
+		settle := func() {
+			// trustHosts answers the waiting callbacks before it has finished rewriting the file:
+			// wait until the rewrite has settled
+			var last []byte
+			for k := 0; k < 40; k++ {
+				time.Sleep(50 * time.Millisecond)
+				cur, _ := os.ReadFile(path)
+				_, tmpE := os.Stat(path + ".tmp")
+				if tmpE != nil && k >= 4 && string(cur) == string(last) {
+					break
 				}
-			}(i, ct.Server, ct.Remote, ct.Key)
+				last = cur
+			}
 		}
-		wg.Wait()
+		round := func() []string {
+			results := make([]string, len(c.Contacts))
+			var wg sync.WaitGroup
+			for i, ct := range c.Contacts {
+				wg.Add(1)
+				go func(i int, server, remote string, key int) {
+					defer wg.Done()
+					host, port, _ := net.SplitHostPort(remote)
+					var p int
+					fmt.Sscan(port, &p)
+					addr := &net.TCPAddr{IP: net.ParseIP(host), Port: p}
+					done := make(chan error, 1)
+					go func() { done <- wrap(server, addr, khKey(key)) }()
+					select {
+					case err := <-done:
+						if err == nil {
+							results[i] = "proceed"
+						} else {
+							results[i] = "refused: " + err.Error()
+						}
+					case <-time.After(6 * time.Second):
+						results[i] = "blocked"
+					}
+				}(i, ct.Server, ct.Remote, ct.Key)
+			}
+			wg.Wait()
+			return results
+		}
+		results := round()
+		var results2 []string
+		if c.Recontact {
+			settle()
+			w.WriteString(c.Answers2)
+			results2 = round()
+		}
 		// a prompt whose scripted answers ran out is still waiting: answer "no" so that it terminates
 		// before the terminal is given back (otherwise it would spin on the closed pipe)
 		blocked := false
-		for _, r := range results {
+		for _, r := range append(append([]string{}, results...), results2...) {
 			if r == "blocked" {
 				blocked = true
 			}
@@ -159,20 +187,9 @@ func init() {
 			ents = append(ents, ent{knownhosts.Line([]string{ct.Server}, khKey(ct.Key)), knownhosts.Line([]string{ct.Remote}, khKey(ct.Key)),
 				knownhosts.Normalize(ct.Server), knownhosts.Normalize(ct.Remote)})
 		}
-		// trustHosts answers the waiting callbacks before it has finished rewriting the file:
-		// wait until the rewrite has settled
-		var last []byte
-		for k := 0; k < 40; k++ {
-			time.Sleep(50 * time.Millisecond)
-			cur, _ := os.ReadFile(path)
-			_, tmpE := os.Stat(path + ".tmp")
-			if tmpE != nil && k >= 4 && string(cur) == string(last) {
-				break
-			}
-			last = cur
-		}
+		settle()
 		after, _ := os.ReadFile(path)
 		_, tmpErr := os.Stat(path + ".tmp")
-		return map[string]interface{}{"before": hx([]byte(content)), "after": hx(after), "results": results, "tmp_left": tmpErr == nil, "entries": ents}, nil
+		return map[string]interface{}{"before": hx([]byte(content)), "after": hx(after), "results": results, "results2": results2, "tmp_left": tmpErr == nil, "entries": ents}, nil
 	}
 }
